@@ -56,7 +56,12 @@ def parseToks : Fmt → Nat → List Tok → Option (Val × List Tok)
   | .ite lo hi a b, ver, ts => if lo ≤ ver ∧ ver ≤ hi then parseToks a ver ts else parseToks b ver ts
   | .arr c e, ver, ts =>
     (match parseCount c ts with
-     | none => none
+     | none =>
+       -- one putStringArray call writes what an int32 count followed by putString calls writes
+       (match c, e, ts with
+        | .i32, .prim .str, .prim .strarr (.list vs) :: r => some (.list vs, r)
+        | .i32null, .prim .str, .prim .strarr (.list vs) :: r => some (.list vs, r)
+        | _, _, _ => none)
      | some (none, r) => some (.null, r)
      | some (some n, r) =>
        match parseMany (parseToks e ver) n r with
@@ -157,6 +162,84 @@ def bodySchema : String → Option Fmt
     some (seqL [p .i32, p .i32, p .i32, Fmt.gate 3 (p .i32), Fmt.gate 4 (p .i8), Fmt.gate 7 (seqL [p .i32, p .i32]),
       .arr .i32 (seqL [p .str, .arr .i32 (seqL [p .i32, Fmt.gate 9 (p .i32), p .i64, Fmt.gate 5 (p .i64), p .i32])]),
       Fmt.gate 7 (.arr .i32 (seqL [p .str, .arr .i32 (p .i32)])), Fmt.gate 11 (p .str)])
+  | "OffsetResponse" =>
+    some (seqL [Fmt.gate 2 (p .i32),
+      .arr .i32 (seqL [p .str, .arr .i32 (seqL [p .i32, p .i16, .ite 0 0 (p .i64arr) (seqL [p .i64, p .i64])])])])
+  | "OffsetFetchRequest" =>
+    some (seqL [flex (p .cstr) (p .str),
+      flex (.arr .compact (seqL [p .cstr, p .ci32arr, p .tagged]))
+           (.ite 2 5 (.arr .i32null (seqL [p .str, p .i32arr])) (.arr .i32 (seqL [p .str, p .i32arr]))),
+      Fmt.gate 7 (p .bool), flex (p .tagged) .unit])
+  | "ConsumerMetadataRequest" => some (p .str)
+  | "ConsumerMetadataResponse" => some (seqL [p .i16, p .i32, p .str, p .i32])
+  | "JoinGroupRequest" =>
+    some (seqL [p .str, p .i32, Fmt.gate 1 (p .i32), p .str, p .str, .arr .i32 (seqL [p .str, p .bytes])])
+  | "SyncGroupRequest" => some (seqL [p .str, p .i32, p .str, .arr .i32 (seqL [p .str, p .bytes])])
+  | "DescribeGroupsResponse" =>
+    some (.arr .i32 (seqL [p .i16, p .str, p .str, p .str, p .str,
+      .arr .i32 (seqL [p .str, p .str, p .str, p .bytes, p .bytes])]))
+  | "ListGroupsRequest" => some .unit
+  | "ApiVersionsRequest" => some .unit
+  | "CreateTopicsRequest" =>
+    some (seqL [.arr .i32 (seqL [p .str, p .i32, p .i16, .arr .i32 (seqL [p .i32, p .i32arr]),
+                                 .arr .i32 (seqL [p .str, p .nstr])]),
+                p .i32, Fmt.gate 1 (p .bool)])
+  | "DeleteRecordsRequest" => some (seqL [.arr .i32 (seqL [p .str, .arr .i32 (seqL [p .i32, p .i64])]), p .i32])
+  | "DeleteRecordsResponse" =>
+    some (seqL [p .i32, .arr .i32 (seqL [p .str, .arr .i32 (seqL [p .i32, p .i64, p .i16])])])
+  | "AddPartitionsToTxnResponse" =>
+    some (seqL [p .i32, .arr .i32 (seqL [p .str, .arr .i32 (seqL [p .i32, p .i16])])])
+  | "TxnOffsetCommitRequest" =>
+    some (seqL [p .str, p .str, p .i64, p .i16, .arr .i32 (seqL [p .str, .arr .i32 (seqL [p .i32, p .i64, p .nstr])])])
+  | "DescribeAclsRequest" =>
+    some (seqL [p .i8, p .nstr, Fmt.gate 1 (p .i8), p .nstr, p .nstr, p .i8, p .i8])
+  | "DescribeAclsResponse" =>
+    some (seqL [p .i32, p .i16, p .nstr,
+      .arr .i32 (seqL [p .i8, p .str, Fmt.gate 1 (p .i8), .arr .i32 (seqL [p .str, p .str, p .i8, p .i8])])])
+  | "CreateAclsRequest" =>
+    some (.arr .i32 (seqL [p .i8, p .str, Fmt.gate 1 (p .i8), p .str, p .str, p .i8, p .i8]))
+  | "CreateAclsResponse" => some (seqL [p .i32, .arr .i32 (seqL [p .i16, p .nstr])])
+  | "DeleteAclsRequest" =>
+    some (.arr .i32 (seqL [p .i8, p .nstr, Fmt.gate 1 (p .i8), p .nstr, p .nstr, p .i8, p .i8]))
+  | "DeleteAclsResponse" =>
+    some (seqL [p .i32, .arr .i32 (seqL [p .i16, p .nstr,
+      .arr .i32 (seqL [p .i16, p .nstr, p .i8, p .str, Fmt.gate 1 (p .i8), p .str, p .str, p .i8, p .i8])])])
+  | "AlterConfigsRequest" =>
+    some (seqL [.arr .i32 (seqL [p .i8, p .str, .arr .i32 (seqL [p .str, p .nstr])]), p .bool])
+  | "AlterConfigsResponse" => some (seqL [p .i32, .arr .i32 (seqL [p .i16, p .str, p .i8, p .str])])
+  | "IncrementalAlterConfigsRequest" =>
+    some (seqL [.arr .i32 (seqL [p .i8, p .str, .arr .i32 (seqL [p .str, p .i8, p .nstr])]), p .bool])
+  | "IncrementalAlterConfigsResponse" => some (seqL [p .i32, .arr .i32 (seqL [p .i16, p .str, p .i8, p .str])])
+  | "DescribeConfigsRequest" =>
+    some (seqL [.arr .i32 (seqL [p .i8, p .str, .arr .i32null (p .str)]), Fmt.gate 1 (p .bool)])
+  | "DescribeConfigsResponse" =>
+    some (seqL [p .i32, .arr .i32 (seqL [p .i16, p .str, p .i8, p .str,
+      .arr .i32 (seqL [p .str, p .str, p .bool, .ite 0 0 (p .bool) (p .i8), p .bool,
+                       Fmt.gate 1 (.arr .i32 (seqL [p .str, p .str, p .i8]))])])])
+  | "DescribeLogDirsRequest" => some (.arr .i32null (seqL [p .str, p .i32arr]))
+  | "DescribeLogDirsResponse" =>
+    some (seqL [p .i32, .arr .i32 (seqL [p .i16, p .str,
+      .arr .i32 (seqL [p .str, .arr .i32 (seqL [p .i32, p .i64, p .i64, p .bool])])])])
+  | "AlterPartitionReassignmentsResponse" =>
+    some (seqL [p .i32, p .i16, p .ncstr,
+      .arr .compact (seqL [p .cstr, .arr .compact (seqL [p .i32, p .i16, p .ncstr, p .tagged]), p .tagged]), p .tagged])
+  | "ListPartitionReassignmentsResponse" =>
+    some (seqL [p .i32, p .i16, p .ncstr,
+      .arr .compact (seqL [p .cstr, .arr .compact (seqL [p .i32, p .ci32arr, p .ci32arr, p .ci32arr, p .tagged]), p .tagged]),
+      p .tagged])
+  | "DescribeUserScramCredentialsRequest" => some (seqL [.arr .compact (seqL [p .cstr, p .tagged]), p .tagged])
+  | "DescribeUserScramCredentialsResponse" =>
+    some (seqL [p .i32, p .i16, p .ncstr,
+      .arr .compact (seqL [p .cstr, p .i16, p .ncstr, .arr .compact (seqL [p .i8, p .i32, p .tagged]), p .tagged]), p .tagged])
+  | "AlterUserScramCredentialsRequest" =>
+    some (seqL [.arr .compact (seqL [p .cstr, p .i8, p .tagged]),
+                .arr .compact (seqL [p .cstr, p .i8, p .i32, p .cbytes, p .cbytes, p .tagged]), p .tagged])
+  | "AlterUserScramCredentialsResponse" =>
+    some (seqL [p .i32, .arr .compact (seqL [p .cstr, p .i16, p .ncstr, p .tagged]), p .tagged])
+  | "ConsumerGroupMemberAssignment" => some (seqL [p .i16, .arr .i32 (seqL [p .str, p .i32arr]), p .bytes])
+  | "CreatePartitionsRequest" =>
+    some (seqL [.arr .i32 (seqL [p .str, p .i32, .arr .i32null (p .i32arr)]), p .i32, p .bool])
+  | "ConsumerGroupMemberMetadata" => some (seqL [p .i16, p .strarr, p .bytes])
   | "Record" => some recordFmt
   | _ => none
 
